@@ -560,8 +560,11 @@ def check_coords(c):
         if (wc - wg).abs().max() > 2e-4 * _scale(c["grid"]):
             return ("C01:cube:of-grid", f"Cube.from_grid(g, align_corners={ac}).cube_to_world differs from the grid's map")
         back = cube.world_to_cube(wc)
-        if (back - co).abs().max() > 1e-4:
-            return ("C01:cube:roundtrip", "Cube world_to_cube(cube_to_world(x)) != x")
+        # float32 world coordinates of magnitude |w| carry an absolute error of about eps32·|w|; normalising divides it
+        # by half the (smallest) cube extent
+        tol = 1e-5 + 8 * 1.2e-7 * float(wc.abs().max()) / (float(cube.extent().min()) / 2)
+        if (back - co).abs().max() > tol:
+            return ("C01:cube:roundtrip", f"Cube world_to_cube(cube_to_world(x)) != x (tolerance {tol:.2e})")
     # points(): world positions of the samples
     pw = g.points(Axes.WORLD, dtype=torch.float64)
     want = g.transform_points(idx, Axes.GRID, Axes.WORLD, decimals=None)
